@@ -69,7 +69,7 @@ Section WriterProofs.
 
   Lemma sorted_tag_from i : forall s l, le_sorted l -> sorted (tag_from i s l).
   Proof.
-    intros s l H. revert s. induction H as [|x l Hs IH Hf]; intros s; simpl; constructor; auto.
+    intros s l H. revert s. induction H as [|x l Hs IH Hf]; intros s; simpl; constructor; [apply IH|].
     rewrite Forall_forall in *. intros r Hr.
     assert (Hk : In (key r) l) by (rewrite <- (map_key_tag_from i (S s) l); now apply in_map).
     unfold rle, rcmp. simpl. auto.
@@ -161,17 +161,11 @@ Section WriterProofs.
         { unfold n, s1. destruct (Nat.leb_spec maxrows (length (sw_buf A s))).
           - rewrite sw_flush_buf. simpl. lia.
           - lia. }
-        rewrite <- (firstn_skipn n (a :: b)) at 2. rewrite app_assoc.
+        replace (p ++ a :: b) with ((p ++ firstn n (a :: b)) ++ skipn n (a :: b))
+          by (now rewrite <- app_assoc, firstn_skipn).
         apply IH; [|now apply I_buf].
-        rewrite skipn_length. simpl in *. lia.
+        rewrite skipn_length. cbn [length] in *. clearbody n. lia.
     Qed.
-
-    Lemma sw_apply_inv o : forall s files p spec,
-      I s p -> Forall2 P files spec ->
-      exists p', I (fst (apply (s, files) o)) p' /\
-                 forall rest, Forall2 P (snd (apply (s, files) o)) (spec ++ sw_written A p (o :: rest)) \/
-                              True.
-    Proof. intros. exists p. Abort.
 
     (* the files closed so far satisfy P against the rows written to them *)
     Theorem sw_fold_inv ops : forall s files p spec,
@@ -347,7 +341,6 @@ Section WriterProofs.
       split; [|split; [|split; [|split; [|split; [|split]]]]].
       + intros x Hx. right. destruct (Hc x Hx) as [Hin|[r [Hin He]]].
         * assert (Hx' : In x (sortf (sw_buf A s))) by (apply (Permutation_in _ (Permutation_sym Sp)); now rewrite Eb).
-          apply (in_map_iff (@key A)) in Hx' || idtac.
           assert (exists r0, In r0 run /\ key r0 = x) as [r0 [Hr0 Ek]].
           { rewrite <- (map_key_tag_from (length (sw_runs A s)) 0 (sortf (sw_buf A s))) in Hx'.
             apply in_map_iff in Hx'. destruct Hx' as [r0 [E0 H0]]. eauto. }
@@ -375,12 +368,11 @@ Section WriterProofs.
     - intros r Hin. apply in_or_app. left. auto.
   Qed.
 
-  Lemma inv_dedupe_empty l : inv_dedupe (mkSW A [] [] None 0) [] /\ inv_dedupe (mkSW A [] [] None 0) l -> True.
-  Proof. auto. Qed.
-
   Lemma dedupe_empty_state : inv_dedupe (mkSW A [] [] None 0) [].
   Proof.
-    unfold inv_dedupe. simpl. repeat split; auto; try (intros ? []).
+    unfold inv_dedupe. simpl.
+    split; [intros a []|]. split; [intros a []|]. split; [intros r []|].
+    split; [constructor|]. split; [|auto].
     intros i l r Hi. destruct i; discriminate.
   Qed.
 
